@@ -18,6 +18,8 @@ type Req struct {
 	Data json.RawMessage `json:"data,omitempty"`
 	// limits
 	DeadlineMs int `json:"deadline_ms,omitempty"`
+	// NoHangConfirm: report a missed deadline at once (callers that treat it as inconclusive anyway)
+	NoHangConfirm bool `json:"-"`
 }
 
 // Outcome classes.
